@@ -65,6 +65,20 @@ mod imp {
         })
     }
 
+    /// vcut on i64 values / edges given as base + offset (integers f64 cannot tell apart)
+    pub fn run_cut_i64(vals: &[Option<i64>], edges: &[i64], n_labels: usize, right: bool, add_bounds: bool) -> Outcome<CutOut> {
+        let v: Vec<Option<i64>> = vals.to_vec();
+        let bins: Vec<Option<i64>> = edges.iter().map(|e| Some(*e)).collect();
+        let labels: Vec<Option<i64>> = (0..n_labels).map(|j| Some(100 + j as i64)).collect();
+        catch(|| match v.titer().vcut(&bins, &labels, right, add_bounds) {
+            Err(_) => CutOut::CallErr,
+            Ok(it) => CutOut::Elems(it.map(|r: TResult<Option<i64>>| r.map(|l| l.map(|x| x as f64)).map_err(|_| ())).collect()),
+        })
+    }
+    pub fn unique_idx_i64(x: &[Option<i64>], last: bool) -> Vec<usize> {
+        x.to_vec().titer().vsorted_unique_idx(if last { Keep::Last } else { Keep::First }).collect()
+    }
+
     pub fn unique_idx_f64(x: &[X], last: bool) -> Vec<usize> {
         enc_vec::<f64>(x).titer().vsorted_unique_idx(if last { Keep::Last } else { Keep::First }).collect()
     }
@@ -211,6 +225,152 @@ fn check_unique(max_len: usize, ctx: &mut Ctx) {
     }
 }
 
+/// beyond the small scope (DESIGN 5.14): many edges, long runs, integers beyond 2^53
+fn check_large(thorough: bool, ctx: &mut Ctx) {
+    // (a) many edges: 0, 1, .., E-1; values on every edge, between edges and outside
+    let fam = "cut-many-edges";
+    let sizes: Vec<usize> = if thorough { vec![17, 33, 65, 257] } else { vec![17, 65] };
+    for e in sizes {
+        let edges: Vec<f64> = (0..e).map(|i| i as f64).collect();
+        for ty in ["f64", "Option<i32>"] {
+            let mut vals: Vec<X> = vec![None, Some(-1.0), Some(e as f64), Some(e as f64 + 3.0)];
+            for k in 0..e {
+                vals.push(Some(k as f64));
+                if ty == "f64" {
+                    vals.push(Some(k as f64 + 0.5));
+                }
+            }
+            for (add_bounds, n_labels) in [(false, e - 1), (true, e + 1), (false, e), (true, e)] {
+                for right in [true, false] {
+                    ctx.states += 1;
+                    ctx.fam(fam).states += 1;
+                    ctx.transitions += vals.len() as u64;
+                    ctx.nontrivial(fam, hash_bytes(format!("{ty}{e}{n_labels}{right}{add_bounds}").as_bytes()));
+                    let want = cut_model(&vals, &edges, n_labels, right, add_bounds);
+                    let got = if ty == "f64" { run_cut_f64(&vals, &edges, n_labels, right, add_bounds) } else { run_cut_i32(&vals, &edges, n_labels, right, add_bounds) };
+                    ctx.eval(fam, hash_bytes(format!("{got:?}").as_bytes()));
+                    if matches!(&got, Outcome::Ok(g) if *g == want) {
+                        ctx.traces += 1;
+                    } else {
+                        let at = match (&got, &want) {
+                            (Outcome::Ok(CutOut::Elems(g)), CutOut::Elems(w)) => (0..w.len()).find(|i| g.get(*i) != Some(&w[*i])).map(|i| format!("first difference at value {:?}: got {:?}, expected {:?}", vals[i], g.get(i), w[i])),
+                            _ => None,
+                        };
+                        ctx.violation(Violation {
+                            entry: "vcut".into(),
+                            finding: None,
+                            size: 10_000 + e,
+                            case: json!({"family": fam, "elem": ty, "edges": format!("0..{e}"), "labels": n_labels, "right": right, "add_bounds": add_bounds}),
+                            expected: "the unique enclosing interval for every value".into(),
+                            got: at.unwrap_or_else(|| truncate(&format!("{got:?}"), 200)),
+                        });
+                    }
+                }
+            }
+        }
+    }
+    // (b) long runs: 1..3 runs with lengths from {1, 2, 255, 256, 257}, nulls at head / tail
+    let fam = "unique-long-runs";
+    let lens = [1usize, 2, 255, 256, 257];
+    let mut comps: Vec<Vec<usize>> = vec![];
+    for a in lens {
+        comps.push(vec![a]);
+        for b in lens {
+            comps.push(vec![a, b]);
+            if thorough {
+                for c in lens {
+                    comps.push(vec![a, b, c]);
+                }
+            }
+        }
+    }
+    for comp in &comps {
+        for (head, tail) in [(0usize, 0usize), (2, 0), (0, 1), (1, 2)] {
+            for desc in [false, true] {
+                let mut x: Vec<X> = vec![None; head];
+                for (r, n) in comp.iter().enumerate() {
+                    let v = if desc { (comp.len() - r) as f64 } else { r as f64 };
+                    x.extend(std::iter::repeat(Some(v)).take(*n));
+                }
+                x.extend(vec![None; tail]);
+                ctx.states += 1;
+                ctx.fam(fam).states += 1;
+                ctx.transitions += x.len() as u64;
+                ctx.nontrivial(fam, hash_bytes(format!("{comp:?}{head}{tail}{desc}").as_bytes()));
+                for (ename, runner) in [("f64", unique_idx_f64 as fn(&[X], bool) -> Vec<usize>), ("Option<i32>", unique_idx_opt)] {
+                    for last in [false, true] {
+                        let want = unique_model(&x, last);
+                        let got = catch(|| runner(&x, last));
+                        ctx.eval(fam, hash_bytes(format!("{got:?}").as_bytes()));
+                        if matches!(&got, Outcome::Ok(g) if *g == want) {
+                            ctx.traces += 1;
+                        } else {
+                            ctx.violation(Violation {
+                                entry: format!("vsorted_unique_idx(Keep::{})", if last { "Last" } else { "First" }),
+                                finding: None,
+                                size: 10_000 + x.len(),
+                                case: json!({"family": fam, "elem": ename, "run_lengths": comp, "head_nulls": head, "tail_nulls": tail, "descending": desc}),
+                                expected: format!("{want:?}"),
+                                got: truncate(&format!("{got:?}"), 200),
+                            });
+                        }
+                    }
+                    let want: Vec<X> = unique_model(&x, false).iter().map(|i| x[*i]).collect();
+                    let got = catch(|| unique_vals(&x, ename == "f64"));
+                    if !matches!(&got, Outcome::Ok(g) if *g == want) {
+                        ctx.violation(Violation { entry: "vsorted_unique".into(), finding: None, size: 10_000 + x.len(), case: json!({"family": fam, "elem": ename, "run_lengths": comp, "head_nulls": head, "tail_nulls": tail, "descending": desc}), expected: show_word(&want), got: truncate(&format!("{got:?}"), 200) });
+                    }
+                }
+            }
+        }
+    }
+    // (c) integers beyond 2^53: binning and run detection depend on the order only (translation relation)
+    let fam = "translation-bigint";
+    for base in [1i64 << 60, -(1i64 << 60)] {
+        let small_vals: Vec<Option<i64>> = vec![None, Some(-1), Some(0), Some(1), Some(2), Some(3), Some(4), Some(5)];
+        let big_vals: Vec<Option<i64>> = small_vals.iter().map(|v| v.map(|o| base + o)).collect();
+        for mask in 1u32..16 {
+            let small_edges: Vec<i64> = (0..4).filter(|i| mask >> i & 1 == 1).map(|i| [0i64, 1, 3, 4][i]).collect();
+            let big_edges: Vec<i64> = small_edges.iter().map(|e| base + e).collect();
+            for add_bounds in [false, true] {
+                let n_labels = if add_bounds { small_edges.len() + 1 } else { small_edges.len().saturating_sub(1) };
+                for right in [true, false] {
+                    ctx.states += 1;
+                    ctx.fam(fam).states += 1;
+                    ctx.transitions += 1;
+                    ctx.nontrivial(fam, hash_bytes(format!("{base}{mask}{add_bounds}{right}").as_bytes()));
+                    let a = run_cut_i64(&small_vals, &small_edges, n_labels, right, add_bounds);
+                    let b = run_cut_i64(&big_vals, &big_edges, n_labels, right, add_bounds);
+                    ctx.eval(fam, hash_bytes(format!("{b:?}").as_bytes()));
+                    if !matches!((&a, &b), (Outcome::Ok(x), Outcome::Ok(y)) if x == y) {
+                        ctx.violation(Violation { entry: "translation:vcut".into(), finding: None, size: 10_000, case: json!({"family": fam, "base": base, "edge_offsets": small_edges, "right": right, "add_bounds": add_bounds}), expected: format!("as on the offsets alone: {a:?}"), got: format!("{b:?}") });
+                    }
+                }
+            }
+        }
+        let mut bodies: Vec<Vec<u8>> = vec![];
+        for_words_upto(3, 5, &mut |w| {
+            if w.windows(2).all(|p| p[0] <= p[1]) {
+                bodies.push(w.to_vec());
+            }
+        });
+        for body in &bodies {
+            let small: Vec<Option<i64>> = body.iter().map(|v| Some(*v as i64)).collect();
+            let big: Vec<Option<i64>> = small.iter().map(|v| v.map(|o| base + o)).collect();
+            for last in [false, true] {
+                ctx.states += 1;
+                ctx.transitions += 1;
+                let a = catch(|| unique_idx_i64(&small, last));
+                let b = catch(|| unique_idx_i64(&big, last));
+                ctx.eval(fam, hash_bytes(format!("{b:?}").as_bytes()));
+                if !matches!((&a, &b), (Outcome::Ok(x), Outcome::Ok(y)) if x == y) {
+                    ctx.violation(Violation { entry: "translation:vsorted_unique_idx".into(), finding: None, size: 10_000, case: json!({"family": fam, "base": base, "offsets": body, "keep_last": last}), expected: format!("{a:?}"), got: format!("{b:?}") });
+                }
+            }
+        }
+    }
+}
+
 fn main() {
     let run = Run::from_args("C14");
     let max_len = run.pick(7, 14);
@@ -222,6 +382,8 @@ fn main() {
         });
         if stored["case"]["family"] == "cut" {
             check_cut(&mut ctx);
+        } else if ["cut-many-edges", "unique-long-runs", "translation-bigint"].contains(&stored["case"]["family"].as_str().unwrap_or("")) {
+            check_large(!run.quick(), &mut ctx);
         } else {
             check_unique(max_len, &mut ctx);
         }
@@ -229,8 +391,9 @@ fn main() {
     }
     check_cut(&mut ctx);
     check_unique(max_len, &mut ctx);
+    check_large(!run.quick(), &mut ctx);
     let meta = Meta {
-        rule: "cut: the whole value alphabet {null, MIN, -3, -1, 0, 1, 2, 5, 7, MAX} (f64 and Option<i32>) x every ascending subset of the edge pool {-1,0,2,5,7} x label counts 0..=6 x right x add_bounds; oracle = the unique interval containing the value (outer edges at -inf/+inf with open bounds), Err for no interval, call-level Err for a label-count mismatch, never a panic. unique: every non-decreasing and non-increasing word over {0,1,2,3} (all run-length compositions) with null blocks of 0..2 at head and tail, Keep::First / Keep::Last / vsorted_unique; oracle = first / last index of each maximal run. Non-trivial = distinct parameter points / words.".into(),
+        rule: "cut: the whole value alphabet {null, MIN, -3, -1, 0, 1, 2, 5, 7, MAX} (f64 and Option<i32>) x every ascending subset of the edge pool {-1,0,2,5,7} x label counts 0..=6 x right x add_bounds; oracle = the unique interval containing the value (outer edges at -inf/+inf with open bounds), Err for no interval, call-level Err for a label-count mismatch, never a panic. unique: every non-decreasing and non-increasing word over {0,1,2,3} (all run-length compositions) with null blocks of 0..2 at head and tail, Keep::First / Keep::Last / vsorted_unique; oracle = first / last index of each maximal run. Beyond the small scope: 17..257 consecutive edges with values on and between every edge; 1..3 runs with lengths from {1,2,255,256,257}; the translation relation for i64 values and edges around +-2^60. Non-trivial = distinct parameter points / words.".into(),
         bounds: json!({"cut": {"edge_pool": [-1, 0, 2, 5, 7], "labels": "0..=6"}, "unique": {"alphabet": [0, 1, 2, 3], "L": max_len, "null_block": "0..=2 head x 0..=2 tail"}}),
         assumptions: vec!["finite values (the type's MIN and MAX included)".into()],
         exhaustive: true,
